@@ -56,7 +56,7 @@ PROPS = {
         ],
     },
     "C11": {
-        "units": ["account", "acctproto"],
+        "units": ["account", "acctproto", "acctstore"],
         "design_ref": "DESIGN.md section 5 C11",
         "technique": "Verus function contracts over a ghost record of what the CA holds; signing-key preconditions on the account requests",
         "text": "Deductive proof that synchronize registers only when no account URL is stored or the external binding changed, otherwise sends at "
@@ -64,13 +64,19 @@ PROPS = {
                 "leaves the CA's record and the stored fingerprints in line with the configuration; that a changed key type or algorithm keeps the "
                 "old key among the superseded ones, creates a key of the configured type and saves at once; and that the roll-over is authorised by "
                 "the superseded key whose fingerprint is stored; that the three request functions of acme_proto/account.rs meet the contracts synchronize relies on "
-                "(which key signs, what is stored and saved afterwards, re-registration when the CA has dropped the account), and that every per-endpoint setter changes only its own field of its own endpoint.",
+                "(which key signs, what is stored and saved afterwards, re-registration when the CA has dropped the account), and that every per-endpoint setter changes only its own field of its own endpoint; "
+                "that what save writes reads back, field by field, as the very account saved (name, every endpoint record, contacts, current and superseded keys with dates and "
+                "algorithms, external binding), that fetch returns that account or an error - never 'no account' - whenever an account file exists, and that load keeps the stored "
+                "endpoint records and keys (the stored current key stays current or becomes the newest superseded key) and builds a fresh account only when no file exists.",
         "assumptions": [
             "T: the CA's side of newAccount / account update / keyChange (prelude/acct_shims.rs: it records the signer of a newAccount, honours an update only when signed by the key it holds, "
             "replaces contacts or key as the payload says) and the readings of the payload structures (structs/account.rs) are stated, not proved; encode_jwk / encode_kid appear as relations (proved in unit jws)",
             "T: fingerprints (SHA-256 of key PEM / contacts / binding) are uninterpreted; HashMap<String, AccountEndpoint> is a map from endpoint names (get / get_mut / entry shims)",
-            "X: persistence (bincode round trip, a truncated file refusing start-up) - account/storage.rs is iterator- and serde-heavy and not under contract; "
-            "multi-restart histories are covered as 'any stored state in step with the CA', not enumerated",
+            "T: bincode is a deterministic self-delimiting encoding (decode(encode(x)) = x; no proper beginning of an encoding decodes - the statement behind 'every truncation point'); "
+            "the text forms of algorithms, key types and contact types and the DER form of a key pair read back as the value written (Display/FromStr of acme_common, OpenSSL PKCS#8); "
+            "`X.iter().map(F).collect()` chains are the element-wise helpers map_vec / try_map_vec / map_strmap (T-ITER), the closure F keeping its real body under an inserted ensures clause; "
+            "account_files_exists is exact about the file's existence (unit storage proves the sound direction only)",
+            "X: multi-restart histories are covered as 'any stored state in step with the CA' plus the one-restart round trip, not enumerated; whether loading a valid file always succeeds (no spurious error) is not claimed",
         ],
     },
     "C13": {
